@@ -20,7 +20,11 @@ func init() {
 			"conventional sign start days: 3/21 4/20 5/21 6/22 7/23 8/23 9/23 10/24 11/23 12/22 1/20 2/19",
 			"festival names and their month-day / month-k-weekday keys are read from the library's exported tables (open data); occurrences are counted over existing days with the RefCal weekday",
 		},
-		Gen: func(g *Gen) []Case { return yearCases("year", allYears()) }, Run: c20Run,
+		Gen: func(g *Gen) []Case {
+			// the per-year cases are spread over the worker pool in ascending order; two more cases walk ALL years inside
+			// one process, in descending and in seeded-shuffled order, so results are also judged under other call histories
+			return append(yearCases("year", allYears()), Case{K: "history", A: []int{0}}, Case{K: "history", A: []int{1}})
+		}, Run: c20Run,
 		Exhaustive: func(tier string) bool { return true },
 		MinEvals:   map[string]int64{"quick": 7000000, "thorough": 7000000},
 		Chunks:     128,
@@ -47,7 +51,27 @@ func signOf(m, d int) int {
 }
 
 func c20Run(w *W, c Case) {
-	y := c.A[0]
+	if c.K == "history" {
+		ys := allYears()
+		if c.A[0] == 0 {
+			for i, j := 0, len(ys)-1; i < j; i, j = i+1, j-1 {
+				ys[i], ys[j] = ys[j], ys[i]
+			}
+			w.Class("history/descending")
+		} else {
+			w.Rng.Shuffle(len(ys), func(i, j int) { ys[i], ys[j] = ys[j], ys[i] })
+			w.Class("history/shuffled")
+		}
+		for _, y := range ys {
+			c20Year(w, y)
+		}
+		w.Count("single-process-history-passes", 1)
+		return
+	}
+	c20Year(w, c.A[0])
+}
+
+func c20Year(w *W, y int) {
 	w.Class(fmt.Sprintf("century%02d", y/100))
 	count := map[string]int{}
 	prevSign := -1
